@@ -7,10 +7,10 @@ package sim
 
 import (
 	"context"
-	"os"
 	"encoding/hex"
 	"encoding/json"
 	"fmt"
+	"os"
 	"sort"
 	"sync/atomic"
 
@@ -88,8 +88,10 @@ func init() {
 	}))
 }
 
-func (m *simModule) NewInstance(ctx context.Context) (wasm.Instance, error) { return simInstance{}, nil }
-func (m *simModule) Close(ctx context.Context) error                        { return nil }
+func (m *simModule) NewInstance(ctx context.Context) (wasm.Instance, error) {
+	return simInstance{}, nil
+}
+func (m *simModule) Close(ctx context.Context) error { return nil }
 
 type hasher struct{ v uint64 }
 
@@ -97,7 +99,7 @@ func (h *hasher) addB(tag string, b []byte) {
 	h.v = H(h.v, tag, fmt.Sprint(len(b)), string(b))
 }
 func (h *hasher) addS(tag, s string) { h.v = H(h.v, tag, s) }
-func (h *hasher) next() uint64      { h.v = mix64(h.v + 0x1234567); return h.v }
+func (h *hasher) next() uint64       { h.v = mix64(h.v + 0x1234567); return h.v }
 
 func stripSetSum(b []byte) []byte {
 	if len(b) >= 4 && (string(b[:4]) == "set:" || string(b[:4]) == "sum:") {
